@@ -632,6 +632,7 @@ def run(ctx):
     if tvh is None:
         ctx.violation("harness does not build against /repo", {"unchecked": "cargo build"}, concrete=False)
         return
+    regression_lines(ctx, tvh, ["c08"])
     rng = ctx.rng
     big = ctx.tier != "quick"
     hist = {}
